@@ -309,6 +309,66 @@ build!(g_member_method_changed, {
     cglue_trait_group!(Grp, { Mb, Ma }, { Ob, Oa });
 });
 
+// ---- C-side-only (#[vtbl_only]) and `where Self: Sized` provided methods ------------------------------
+build!(vbase, {
+    #[cglue_trait]
+    pub trait Iface {
+        fn alpha(&self, x: u32) -> u32;
+        #[vtbl_only]
+        fn beta(&self, x: u32) -> u32 { x }
+        fn gamma(&self, x: u32) -> u32;
+        fn sized(&self, k: u32) -> u32 where Self: Sized { k }
+    }
+});
+build!(vsame, {
+    #[cglue_trait]
+    pub trait Iface {
+        fn alpha(&self, x: u32) -> u32;
+        #[vtbl_only]
+        fn beta(&self, x: u32) -> u32 { x }
+        fn gamma(&self, x: u32) -> u32;
+        fn sized(&self, k: u32) -> u32 where Self: Sized { k }
+    }
+});
+build!(v_vtbl_only_moved, {
+    #[cglue_trait]
+    pub trait Iface {
+        #[vtbl_only]
+        fn beta(&self, x: u32) -> u32 { x }
+        fn alpha(&self, x: u32) -> u32;
+        fn gamma(&self, x: u32) -> u32;
+        fn sized(&self, k: u32) -> u32 where Self: Sized { k }
+    }
+});
+build!(v_sized_removed, {
+    #[cglue_trait]
+    pub trait Iface {
+        fn alpha(&self, x: u32) -> u32;
+        #[vtbl_only]
+        fn beta(&self, x: u32) -> u32 { x }
+        fn gamma(&self, x: u32) -> u32;
+    }
+});
+build!(v_sized_retyped, {
+    #[cglue_trait]
+    pub trait Iface {
+        fn alpha(&self, x: u32) -> u32;
+        #[vtbl_only]
+        fn beta(&self, x: u32) -> u32 { x }
+        fn gamma(&self, x: u32) -> u32;
+        fn sized(&self, k: u64) -> u32 where Self: Sized { k as u32 }
+    }
+});
+build!(v_vtbl_only_retyped, {
+    #[cglue_trait]
+    pub trait Iface {
+        fn alpha(&self, x: u32) -> u32;
+        #[vtbl_only]
+        fn beta(&self, x: u64) -> u32 { x as u32 }
+        fn gamma(&self, x: u32) -> u32;
+        fn sized(&self, k: u32) -> u32 where Self: Sized { k }
+    }
+});
 // ---- external traits (#[cglue_trait_ext] objects, groups with an `ext::` member) -------------------
 // (written out in full: a macro_rules wrapper would give the generated `self` another hygiene context)
 pub mod xbase {
@@ -525,6 +585,11 @@ fn main() {
     case("group_add_optional", false, grp!(gbase), grp!(g_add_optional));
     case("group_optional_to_mandatory", false, grp!(gbase), grp!(g_optional_to_mandatory));
     case("group_member_method_changed", false, grp!(gbase), grp!(g_member_method_changed));
+    case("identical_vtbl_only_and_sized", true, iface!(vbase), iface!(vsame));
+    case("vtbl_only_method_moved", false, iface!(vbase), iface!(v_vtbl_only_moved));
+    case("vtbl_only_method_retyped", false, iface!(vbase), iface!(v_vtbl_only_retyped));
+    case("where_sized_method_removed", false, iface!(vbase), iface!(v_sized_removed));
+    case("where_sized_method_retyped", false, iface!(vbase), iface!(v_sized_retyped));
     macro_rules! xo { ($m:ident) => { <$m::glue::ShapeBox<'static> as StableAbi>::LAYOUT } }
     macro_rules! xg { ($m:ident) => { <$m::glue::XGBox<'static> as StableAbi>::LAYOUT } }
     case("ext_identical_object", true, xo!(xbase), xo!(xsame));
